@@ -116,6 +116,39 @@ CLAIMED = {
         design_ref="DESIGN.md section 6 C11",
         note=_SYNC_NOTE + " moby/patternmatcher is trusted for pattern verdicts; its incremental/plain disagreement is the listed known finding.",
         technique="TLA+ property layer (ValidStream, SyncOutcome, C11 clauses of SyncTrace) + TLC trace validation of real filtered transfers and Open probes"),
+    "C13": dict(
+        text="copy.Copy of seeded random trees (all entry types, hard-link groups, xattrs, special mode bits, 255-byte names) into an empty "
+             "destination under option sets {chown, octal mode, symbolic mode incl. X, utime} and shapes {whole tree, sub-directory, single "
+             "entry, nested new destination}, executed in a chroot jail; TLC compares the after-snapshot with the reference of spec/CopyRef.tla "
+             "(placement, Image under options with a TLA+ symbolic-mode semantics, created parents, hard-link partition) and the notifier log.",
+        design_ref="DESIGN.md section 6 C13",
+        note="Trusted: TLC; the harness snapshotter; ext4 as root; chroot of the same filesystem as jail; kernel symlink-following per syscall; bounded universes and seeded random trees.",
+        technique="TLA+ reference copy (CopyRef: overlay function, option application, SymApply) + TLC trace validation of real copy.Copy runs"),
+    "C14": dict(
+        text="copy.Copy runs in a chroot jail with outside sentinels; symlinks (absolute, '..'-laden, dangling, into a missing outside path, "
+             "looping) are placed in the source tree, in the destination tree at the position of source entries, in the source argument and in "
+             "the destination argument, x follow-links x always-replace; the overlay universe of C15 runs in the same jail. TLC checks that the "
+             "identity snapshot of everything outside the two roots is unchanged and that no destination file carries sentinel bytes.",
+        design_ref="DESIGN.md section 6 C14",
+        note="Trusted: TLC; the harness snapshotter; ext4 as root; chroot of the same filesystem as jail; kernel symlink-following per syscall; bounded universes and seeded random trees.",
+        technique="TLA+ containment clauses (CopyTrace) + TLC trace validation of real copy.Copy runs in a chroot jail with sentinels"),
+    "C15": dict(
+        text="Every sampled (thorough: every) combination of source tree x destination tree over a shared two-name universe (so that every type "
+             "pair collides) x ten request shapes x always-replace is executed twice with the real copy.Copy; TLC evaluates the recursive overlay "
+             "reference of spec/CopyRef.tla (merge, replace, stay, land inside, trailing separator, wildcard union, nested missing destination, "
+             "conflicts, always-replace, destination-argument symlink resolution) and checks outcome kind, resulting tree, untouched entries, "
+             "the obstacle after a conflict and idempotence.",
+        design_ref="DESIGN.md section 6 C15",
+        note="Trusted: TLC; the harness snapshotter; ext4 as root; chroot of the same filesystem as jail; kernel symlink-following per syscall; bounded universes and seeded random trees.",
+        technique="TLA+ reference copy (CopyRef recursive overlay + chroot-style resolver) + TLC trace validation of real copy.Copy runs, bounded-exhaustive in the thorough tier"),
+    "C16": dict(
+        text="copy.Copy of whole trees with include/exclude lists (systematic single patterns and [X, !Y] pairs on a fixed tree plus seeded random "
+             "lists) into empty and populated destinations; TLC checks the three-way equality written paths = naive reference filter (FilterRef over "
+             "library hit matrices) = paths of fsutil.Walk with the same patterns, that no other directory is created, and that ancestors created "
+             "on demand carry the source directory's mode, owner and xattrs; the incremental-matcher explanation test separates the known finding.",
+        design_ref="DESIGN.md section 6 C16",
+        note="Trusted: TLC; the harness snapshotter; ext4 as root; chroot of the same filesystem as jail; kernel symlink-following per syscall; bounded universes and seeded random trees. moby/patternmatcher is trusted for single-pattern verdicts.",
+        technique="TLA+ reference filter (FilterRef) + TLC trace validation of real filtered copies against reference and filtered walk"),
     "C19": dict(
         text="Metadata-only transfers with the real Receive (real or synthetic sender) over trees with selectors none/all/files/directories/"
              "nested, sources containing an entry with the listing file's name (top level and nested), prior destinations holding a stale listing "
